@@ -3135,11 +3135,13 @@ def mk_memfs(tree, cwd="/"):
 
 
 def memfs_executor(ctx, solver, tenv, **kw):
-    models = MM.make_mem_models() + M.make_expand_models(tenv) + TP.make_textpath_models() + make_pathtext_models()
+    from .mirsym import itermodels as IM
+    src = os.path.join(ctx.scratch, "src") if ctx.scratch else os.path.join(common.REPO, "src")
+    index = RiviaIndex(ctx.mir, src)
+    models = IM.make_iter_models(index) + MM.make_mem_models() + M.make_expand_models(tenv) + TP.make_textpath_models() + make_pathtext_models()
     ex = new_executor(ctx, solver, models, EXPAND_INLINE + COMPONENT_INLINE + RIVIA_INLINE + PATHTEXT_INLINE + GENERIC_PATH_INLINE, **kw)
     ex.enum_hook = TP.text_enum_hook
-    src = os.path.join(ctx.scratch, "src") if ctx.scratch else os.path.join(common.REPO, "src")
-    ex.auto = RiviaIndex(ctx.mir, src)
+    ex.auto = index
     ex.drop_hook = MM.memfs_drop_hook(ex.auto)
     return ex
 
@@ -3407,7 +3409,7 @@ def run_memfs_single(ctx, prop, ops, nmax, n2max, cwds=("/", "/a"), tag="mem_sin
                         # C01, first sentence, for one call: result and resulting tree equal the reference filesystem
                         pa = abs_oracle(ex, st, groups["arg0"], T_(cwd), run.tenv)
                         pb = None
-                        if op in ("symlink", "move_p") and pa[0] == "ok":
+                        if op in ("symlink", "move_p", "copy") and pa[0] == "ok":
                             a1 = groups["arg1"]
                             if op == "symlink" and not ex.decide(st, TP.is_ch(a1[0], TP.SLASH)):
                                 a1 = list(TP.parent_text(ex, st, pa[1]) or T_("/")) + T_("/") + list(a1)
@@ -3598,6 +3600,31 @@ impl RefFs {
                 self.nodes.insert(p, N::L(t));
                 Ok(true)
             }
+            "copy" => {
+                let dst = match self.resolve(arg2) { Some(d) => d, None => return Ok(false) };
+                if p == dst { return if node.is_some() { Ok(true) } else { Err(()) }; }
+                if node.is_none() { return Ok(false); }
+                if p == "/" { return Err(()); }
+                let fin = if self.nodes.get(&dst) == Some(&N::D) { format!("{}/{}", dst.trim_end_matches('/'), Self::base(&p)) } else { dst };
+                if Self::under(&fin, &p) { return Err(()); }
+                let mut cur = String::new();
+                let mut made = vec![];
+                let comps: Vec<&str> = fin.split('/').filter(|c| !c.is_empty()).collect();
+                for c in &comps[..comps.len() - 1] {
+                    cur = format!("{}/{}", cur, c);
+                    match self.nodes.get(&cur) { None => made.push(cur.clone()), Some(N::D) => {}, Some(_) => return Ok(false) }
+                }
+                let copied: Vec<(String, N)> = self.nodes.iter().filter(|(k, _)| Self::under(k, &p)).map(|(k, n)| (format!("{}{}", fin, &k[p.len()..]), n.clone())).collect();
+                for (k, n) in &copied {
+                    match (self.nodes.get(k), n) {
+                        (None, _) | (Some(N::F(_)), N::F(_)) | (Some(N::D), N::D) => {}
+                        _ => return Err(()),
+                    }
+                }
+                for m in made { self.nodes.insert(m, N::D); }
+                for (k, n) in copied { self.nodes.insert(k, n); }
+                Ok(true)
+            }
             "move_p" => {
                 let dst = match self.resolve(arg2) { Some(d) => d, None => return Ok(false) };
                 if node.is_none() { return Ok(false); }
@@ -3632,7 +3659,7 @@ impl RefFs {
 '''
 
 
-REF_OPS = ("mkfile", "mkdir_p", "write_all", "append_all", "remove", "remove_all", "set_cwd", "symlink", "move_p")
+REF_OPS = ("mkfile", "mkdir_p", "write_all", "append_all", "remove", "remove_all", "set_cwd", "symlink", "move_p", "copy")
 
 
 def mem_replay_src(f):
@@ -3705,7 +3732,9 @@ _mk_mem_single("c03_mem_write", ["write_all", "append_all", "set_cwd"], 3, 2, "q
 _mk_mem_single("c03_mem_remove", ["remove", "remove_all"], 3, 2, "quick")
 _mk_mem_single("c03_mem_symlink", ["symlink"], 3, 2, "quick")
 _mk_mem_single("c03_mem_move", ["move_p"], 3, 2, "quick")
+_mk_mem_single("c03_mem_copy", ["copy"], 3, 2, "quick")
 _mk_mem_single("c03_mem_create4", ["mkfile", "mkdir_p"], 4, 2, "thorough")
+_mk_mem_single("c03_mem_copy3", ["copy"], 3, 3, "thorough")
 _mk_mem_single("c03_mem_write4", ["write_all", "append_all", "set_cwd", "remove"], 4, 2, "thorough")
 _mk_mem_single("c03_mem_two3", ["symlink", "move_p"], 3, 3, "thorough")
 
@@ -4581,6 +4610,55 @@ def ref_apply(ex, st, ref, op, paths, data):
         ref["nodes"].append(dict(key=list(p), kind="l", content=None, alt=list(paths[1]), tkind=(t["kind"] if t else None),
                                  mode=BV(32, False, 0o120777), uid=BV(32, False, 1000), gid=BV(32, False, 1000)))
         return ("ok", p)
+    if op == "copy":
+        src, dst = p, paths[1]
+        if ex.decide(st, TP.path_eq_text(ex, st, src, dst)):
+            return ("ok", None) if node is not None else ("skip", None)  # a missing source onto itself: not determined by the documentation
+        if node is None:
+            return ("err", None)
+        if is_root:
+            return ("skip", None)
+        dn = ref_find(ex, st, ref, dst)
+        final = list(dst)
+        if dn is not None and dn["kind"] == "d":
+            fb = TP.PathBufT(list(dst))
+            TP.push_text(ex, st, fb, TP.tokenize(ex, st, src)[-1][0].text)
+            final = fb.chars
+        ts, tf = TP.tokenize(ex, st, src), TP.tokenize(ex, st, final)
+        if len(tf) >= len(ts) and all(ex.decide(st, TP.tcomp_eq(a[0], b[0])) for a, b in zip(ts, tf)):
+            return ("skip", None)  # onto itself / into its own subtree: not determined by the documentation
+        # destination directories are created as needed; a non-directory on the way is an error
+        cur = TP.PathBufT([])
+        made = []
+        for t in tf[:-1]:
+            TP.push_text(ex, st, cur, t[0].text)
+            n = ref_find(ex, st, ref, cur.chars)
+            if n is None:
+                made.append(dict(key=list(cur.chars), kind="d", content=None, mode=BV(32, False, 0o40755), uid=BV(32, False, 1000), gid=BV(32, False, 1000)))
+            elif n["kind"] != "d":
+                return ("err", None)
+        add = []
+        for n in list(ref["nodes"]):
+            tn = TP.tokenize(ex, st, n["key"])
+            if not (len(tn) >= len(ts) and all(ex.decide(st, TP.tcomp_eq(a[0], b[0])) for a, b in zip(ts, tn))):
+                continue
+            nb = TP.PathBufT(list(final))
+            for t in tn[len(ts):]:
+                TP.push_text(ex, st, nb, t[0].text)
+            old = ref_find(ex, st, ref, nb.chars)
+            if old is not None:
+                if old["kind"] != n["kind"] or n["kind"] == "l":
+                    return ("skip", None)  # replacing an entry of another kind: not determined by the documentation
+                if n["kind"] == "f":
+                    old["content"] = list(n["content"])
+                    old["mode"] = n["mode"]
+                continue
+            c = dict(n)
+            c["key"] = nb.chars
+            c["content"] = list(n["content"]) if n["content"] is not None else None
+            add.append(c)
+        ref["nodes"] += made + add
+        return ("ok", None)
     if op == "move_p":
         src, dst = p, paths[1]
         if node is None:
@@ -4651,3 +4729,443 @@ def ref_matches(ex, st, ref, snap):
                 return B(False)
             conj += [bv_bin("Eq", a, b) for a, b in zip(f["data"], n["content"])]
     return b_and(*conj)
+
+
+# ------------------------------------------------------------------------------------------------
+# C06 (last sentence): copies and moves do not alias; a copy replaces an existing destination file
+# ------------------------------------------------------------------------------------------------
+@job("c06_copy_move", ["C06", "C12"], "quick",
+     functions=["Memfs::{copy,copy_b,_copy,_clone_file,_clone_entries,_entries,move_p,write_all,append_all,read_all}, Copier::exec, Entries/EntriesIter/EntryIter/MemfsEntryIter "
+                "(real MIR; std iterator plumbing modelled: owned list iterators, Box<dyn Iterator> dispatch, collect, chain, sort_by)"],
+     bounds="scenarios copy|move (/b -> new path /n, /b -> existing file /a/b, /a -> new dir /n) followed by write_all|append_all of 0..=2 symbolic ASCII bytes to the source or "
+            "to the destination, then reading both; from the tree {/, /a, /a/b, /b}")
+def c06_copy_move(ctx, prop):
+    import itertools
+    t0 = time.time()
+    run = MemRun(ctx, "c06_copy_move")
+    ex, ob, solver = run.ex, run.ob, run.solver
+    unit = dict(status="pass", failures=[])
+    P = lambda s: BoxRef(M.SStr(T_(s)))
+    # (kind, src, dst, file to follow at the source side, same file at the destination side, its content)
+    scen = [("copy", "/b", "/n", "/b", "/n", "yz"), ("copy", "/b", "/a/b", "/b", "/a/b", "yz"), ("copy", "/a", "/n", "/a/b", "/n/b", "x"),
+            ("copy", "/b", "/a", "/b", "/a/b", "yz"), ("move_p", "/b", "/n", None, "/n", "yz"), ("move_p", "/b", "/a/b", None, "/a/b", "yz"),
+            ("move_p", "/a", "/n", None, "/n/b", "x")]
+    for (kind, src, dst, sfile, dfile, content), wop, side, n in itertools.product(scen, ("write_all", "append_all"), ("src", "dst"), (0, 1, 2)):
+        if side == "src" and sfile is None:
+            continue
+        sid = "c06cm_%s_%s_%s_%s_%d" % (kind, dst.replace("/", "_"), wop[0], side, n)
+        d, cons = sym_text(solver, sid, n, ascii_only=True)
+        cons = list(cons) + ["(not (= %s #x00000000))" % x.v for x in d]
+        groups = {"data": d}
+        wfile = sfile if side == "src" else dfile
+        other = dfile if side == "src" else sfile
+        calls = [(kind, [P(src), P(dst)]), (wop, [P(wfile), BoxRef(M.SStr(d))]), ("read_all", [P(wfile)])]
+        if other is not None:
+            calls.append(("read_all", [P(other)]))
+        orig = [BV(32, False, ord(c)) for c in content]
+        exp_w = (orig + list(d)) if wop == "append_all" else list(d)
+
+        def on_done(st, results, inner, i, kind=kind, src=src, dst=dst, wop=wop, side=side, groups=groups, exp_w=exp_w, orig=orig, other=other, wfile=wfile,
+                    content=content):
+            cf = lambda extra: text_model(ex, st, groups, extra)
+            meta = dict(scenario=(kind, src, dst, wop, wfile, other, content), where="Memfs")
+            bad = [r for r in results if r[0] in ("panic", "bound")]
+            if bad:
+                ob.total += 1
+                ob.failures.append(dict(kind="panic" if bad[0][0] == "panic" else "bound", cex=cf([]), desc="C12: copy/move scenario panics/loops: %s" % bad[0][1], **meta))
+                return
+            for k, (rk, rv) in enumerate(results):
+                ob.prove(ex, st, "C06: step %d of %s %s->%s; %s %s succeeds" % (k, kind, src, dst, wop, wfile), B(isinstance(rv, Adt) and rv.variant == 0), cf) or \
+                    ob.failures[-1].update(**meta)
+            if any(not (isinstance(rv, Adt) and rv.variant == 0) for rk, rv in results):
+                return
+            ob.prove(ex, st, "C06: after %s %s->%s the written file %s holds what the byte-vector model holds" % (kind, src, dst, wfile),
+                     text_eq(results[2][1].fields[0].chars, exp_w), cf) or ob.failures[-1].update(**meta)
+            if other is not None:
+                ob.prove(ex, st, "C06: a copied file does not alias its source: writing %s leaves %s unchanged" % (wfile, other),
+                         text_eq(results[3][1].fields[0].chars, orig), cf) or ob.failures[-1].update(**meta)
+            if len(ob.samples) < 4:
+                ob.samples.append(dict(scenario=[kind, src, dst, wop, wfile], data=cf([])))
+
+        run.explore(TREE1, "/", calls, cons, on_done)
+    seen = set()
+    for f in ob.failures:
+        if f["kind"] == "bound" or f["cex"] is None:
+            unit["status"], unit["why"] = "inconclusive", f["desc"]
+            continue
+        key = f["scenario"]
+        if key in seen or len(seen) >= 4:
+            continue
+        seen.add(key)
+        kind, src, dst, wop, wfile, other, content = f["scenario"]
+        data = f["cex"].get("data", "")
+        exp_w = (content + data) if wop == "append_all" else data
+        src_rs = MEM_REPLAY_PRELUDE + '''
+#[test]
+fn replay_copy_move() {
+    // %s
+    let v = fixture();
+    v.%s(%s, %s).unwrap();
+    v.%s(%s, %s).unwrap();
+    assert_eq!(v.read_all(%s).unwrap(), %s, "C06: the written file");
+    %s
+}
+''' % (f["desc"], kind, rs_str(src), rs_str(dst), wop, rs_str(wfile), rs_str(data), rs_str(wfile), rs_str(exp_w),
+       ('assert_eq!(v.read_all(%s).unwrap(), %s, "C06: the other side of the copy changed");' % (rs_str(other), rs_str(content))) if other else "")
+        r = native_test(src_rs, ctx.logdir, "c06cm_%d" % len(seen))
+        reproduced = r["ran"] and r["failed"] > 0
+        rec = dict(kind=f["kind"], desc='"%s" data=%r' % (f["desc"], data), where="Memfs", reproduced=reproduced, replay_outcome=r["out"][-400:])
+        if reproduced:
+            rec["replay"] = save_replay(prop, "c06_copy_move", src_rs, f["desc"], dict(failed=r["failed"]))
+        unit["failures"].append(rec)
+        unit["status"] = "violation"
+    return finish(unit, ex, solver, ob, t0, dict(models_used="Memfs and the Entries traversal executed from MIR; byte-vector reference"))
+
+
+# ------------------------------------------------------------------------------------------------
+# C08: directory traversal (Entries / EntriesIter / EntryIter / MemfsEntryIter) on Memfs
+# ------------------------------------------------------------------------------------------------
+C08_FUNCS = ["Memfs::{entries,_entries,_entry_iter,_clone_entries}, Entries::{dirs,files,follow,min_depth,max_depth,sort_by_name,dirs_first,files_first,contents_first,sort,into_iter}, "
+             "EntriesIter::{next,process}, EntryIter::{next,cache,sort,dirs_first,files_first,_sort,_split}, MemfsEntryIter::{new,next}, VfsEntry/MemfsEntry accessors (real MIR; "
+             "std plumbing modelled: owned list iterators, Box<dyn Iterator> dispatch, by-ref collect, chain, slice sort_by driven by the real comparator closure)"]
+
+
+def mk_tree_sym(shape, names, order):
+    """shape: nested list of (name index, 'd' [children] | 'f');  names: {index: [char BV]};  order: 0 = listing in the given
+    order, 1 = reversed (HashSet iteration order is arbitrary).  Returns (memfs, inner, flat) with flat = [(key chars, kind, depth, parent key)]"""
+    entries, files, flat = [], [], []
+
+    def add(node, parent_key, depth):
+        idx, kind, kids = node
+        key = T_("/") if idx is None else (list(parent_key) + ([] if len(parent_key) == 1 else T_("/")) + list(names[idx]))
+        flat.append(dict(key=key, kind=kind, depth=depth, parent=parent_key, name=None if idx is None else names[idx]))
+        if kind == "d":
+            ch = [names[k[0]] for k in kids]
+            if order:
+                ch = ch[::-1]
+            e = Adt("MemfsEntry", None, None, [TP.PathBufT(list(key)), TP.PathBufT([]), TP.PathBufT([]), B(True), B(False), B(False), BV(32, False, 0o40755),
+                                               BV(32, False, 1000), BV(32, False, 1000), B(False), B(False), M.opt_some(None, MM.SetM([list(c) for c in ch]))])
+            entries.append((list(key), BoxRef(e)))
+            for k in kids:
+                add(k, key, depth + 1)
+        else:
+            e = Adt("MemfsEntry", None, None, [TP.PathBufT(list(key)), TP.PathBufT([]), TP.PathBufT([]), B(False), B(True), B(False), BV(32, False, 0o100644),
+                                               BV(32, False, 1000), BV(32, False, 1000), B(False), B(False), M.opt_none(None)])
+            entries.append((list(key), BoxRef(e)))
+            files.append((list(key), BoxRef(Adt("MemfsFile", None, None, [BV(64, False, 0), M.VecM([]), M.opt_none(None), M.opt_none(None)]))))
+    add(shape, None, 0)
+    inner = BoxRef(Adt("MemfsInner", None, None, [TP.PathBufT(T_("/")), TP.PathBufT(T_("/")), MM.MapM(entries), MM.MapM(files)]))
+    memfs = Adt("Memfs", None, None, [Adt("Arc", None, None, [BoxRef(Adt("RwLock", None, None, [inner, MM.LockM()]))])])
+    return memfs, inner, flat
+
+
+# / { 0: dir { 3: file, 4: dir {} }, 1: file, 2: dir {} }
+C08_SHAPE = (None, "d", [(0, "d", [(3, "f", []), (4, "d", [])]), (1, "f", []), (2, "d", [])])
+# / { 0: dir { 2: dir { 3: file } }, 1: file }
+C08_SHAPE_DEEP = (None, "d", [(0, "d", [(2, "d", [(3, "f", [])])]), (1, "f", [])])
+
+
+def c08_expected(ex, st, flat, filt, sort, contents_first, emin, emax):
+    """reference traversal: returns (sequence, exact?)  - exact only when siblings are sorted"""
+    from .mirsym.values import bv_bin
+    by_parent = {}
+    for n in flat:
+        by_parent.setdefault(tuple(id(c) for c in (n["parent"] or [])) if n["parent"] is not None else None, []).append(n)
+
+    def kids_of(n):
+        return [k for k in flat if k["parent"] is not None and len(k["parent"]) == len(n["key"]) and k["parent"] is n["key"]]
+
+    def less(a, b):
+        for c, d in zip(a["name"], b["name"]):
+            if ex.decide(st, bv_bin("Lt", c, d)):
+                return True
+            if ex.decide(st, bv_bin("Lt", d, c)):
+                return False
+        return len(a["name"]) < len(b["name"])
+
+    def sort_names(ks):
+        out = []
+        for k in ks:
+            i = len(out)
+            while i > 0 and less(k, out[i - 1]):
+                i -= 1
+            out.insert(i, k)
+        return out
+
+    def order(ks):
+        if sort == "none":
+            return ks
+        if sort == "name":
+            return sort_names(ks)
+        d, f = sort_names([k for k in ks if k["kind"] == "d"]), sort_names([k for k in ks if k["kind"] != "d"])
+        return d + f if sort == "dirs_first" else f + d
+
+    seq = []
+
+    def visit(n):
+        passes = n["depth"] >= emin and (filt == "none" or (filt == "dirs") == (n["kind"] == "d"))
+        descend = n["kind"] == "d" and n["depth"] < emax
+        if passes and not (contents_first and n["kind"] == "d"):
+            seq.append(n)
+        if descend:
+            for k in order(kids_of(n)):
+                visit(k)
+        if passes and contents_first and n["kind"] == "d":
+            seq.append(n)
+    visit(flat[0])
+    return seq
+
+
+def run_entries(ctx, prop, tag, shapes, sorts, filters=("none", "dirs", "files"), cfs=(False, True), dmax=3):
+    from .mirsym.engine import State
+    from .mirsym.values import bv_bin
+    t0 = time.time()
+    run = MemRun(ctx, tag, visits=600)
+    ex, ob, solver = run.ex, run.ob, run.solver
+    unit = dict(status="pass", failures=[])
+    R = lambda n: ex.auto.resolve(n) or (_ for _ in ()).throw(Unsupported("%s not found in the MIR dump" % n))
+    f_entries = run.fn("entries")
+    fns = dict(dirs=R("Entries::dirs"), files=R("Entries::files"), min_depth=R("Entries::min_depth"), max_depth=R("Entries::max_depth"),
+               name=R("Entries::sort_by_name"), dirs_first=R("Entries::dirs_first"), files_first=R("Entries::files_first"),
+               contents_first=R("Entries::contents_first"), into_iter=R("<Entries as IntoIterator>::into_iter"), next=R("<EntriesIter as Iterator>::next"))
+    for si, (shape, nnames) in enumerate(shapes):
+        for order in (0, 1):
+            for filt in filters:
+                for sort in sorts:
+                    for cf_ in cfs:
+                        sid = "%s_s%d_o%d_%s_%s_%d" % (tag, si, order, filt, sort, int(cf_))
+                        names, cons, groups = {}, [], {}
+                        for k in range(nnames):
+                            c, cc = sym_text(solver, "%s_n%d" % (sid, k), 1, ascii_only=True)
+                            cons += cc + ["(bvuge %s #x00000030)" % c[0].v, "(bvule %s #x0000007a)" % c[0].v]
+                            names[k] = c
+                            groups["name%d" % k] = c
+                        # sibling names are distinct
+                        def sib(node):
+                            ks = [k[0] for k in node[2]]
+                            for i in range(len(ks)):
+                                for j in range(i + 1, len(ks)):
+                                    cons.append("(not (= %s %s))" % (names[ks[i]][0].v, names[ks[j]][0].v))
+                            for k in node[2]:
+                                sib(k)
+                        sib(shape)
+                        for nm in ("dmin", "dmax"):
+                            solver.declare("%s_%s" % (sid, nm), "(_ BitVec 64)")
+                            cons.append("(or (bvule %s_%s (_ bv%d 64)) (= %s_%s #xffffffffffffffff))" % (sid, nm, dmax, sid, nm))
+                        dmin_v, dmax_v = BV(64, False, "%s_dmin" % sid), BV(64, False, "%s_dmax" % sid)
+                        memfs, inner, flat = mk_tree_sym(shape, names, order)
+                        steps = ["entries", "min_depth", "max_depth"] + ([filt] if filt != "none" else []) + ([sort] if sort != "none" else []) + \
+                                (["contents_first"] if cf_ else []) + ["into_iter"]
+
+                        def on_path(st, steps=steps, flat=flat, filt=filt, sort=sort, cf_=cf_, groups=groups, dmin_v=dmin_v, dmax_v=dmax_v, sid=sid, order=order, si=si):
+                            i = st.meta["i"]
+                            meta = dict(opts=dict(filter=filt, sort=sort, contents_first=cf_, listing_order=order, shape=si), where="EntriesIter")
+
+                            def cex(extra):
+                                m = text_model(ex, st, groups, extra) or {}
+                                r, mod = ex.solver.check(st.pc + extra, want_model=[dmin_v.v, dmax_v.v])
+                                if r == "sat":
+                                    m["min_depth"], m["max_depth"] = parse_smt_int(mod[dmin_v.v]), parse_smt_int(mod[dmax_v.v])
+                                return m
+                            if st.panic or st.bound_hit:
+                                ob.total += 1
+                                ob.failures.append(dict(kind="panic" if st.panic else "bound", cex=cex([]),
+                                                        desc="C12: traversal panics/loops: %s" % (st.panic or st.bound_hit), **meta))
+                                return
+                            cur = st.retval if i >= 0 else None
+                            if i >= 0 and steps[min(i, len(steps) - 1)] == "entries":
+                                if not (isinstance(cur, Adt) and cur.variant == 0):
+                                    ob.total += 1
+                                    ob.failures.append(dict(kind="functional", cex=cex([]), desc="C08: entries('/') fails", **meta))
+                                    return
+                                cur = cur.fields[0]
+                            i += 1
+                            if i < len(steps):
+                                s = steps[i]
+                                if s == "entries":
+                                    st2 = ex.start(f_entries, [BoxRef(st.meta["memfs"]), BoxRef(M.SStr(T_("/")))])
+                                elif s == "min_depth":
+                                    st2 = ex.start(fns[s], [cur, dmin_v])
+                                elif s == "max_depth":
+                                    st2 = ex.start(fns[s], [cur, dmax_v])
+                                else:
+                                    st2 = ex.start(fns[s], [cur])
+                                st2.pc, st2.meta = list(st.pc), dict(st.meta)
+                                st2.meta["i"] = i
+                                return [st2]
+                            # iteration phase
+                            if i == len(steps):
+                                st.meta["iter"] = BoxRef(cur)
+                                st.meta["got"] = []
+                            else:
+                                if cur.variant == 0:
+                                    return finish_path(st, meta, cex)
+                                item = cur.fields[0]
+                                if not (isinstance(item, Adt) and item.variant == 0):
+                                    ob.total += 1
+                                    ob.failures.append(dict(kind="functional", cex=cex([]), desc="C08: the traversal yields an error: %r" % (item,), **meta))
+                                    return
+                                ent = item.fields[0]
+                                me = ent.fields[0] if ent.ty == "VfsEntry" else ent
+                                st.meta["got"] = st.meta["got"] + [dict(path=list(ex.deref(st, me).fields[0].chars) if isinstance(me, (Ref, BoxRef)) else list(me.fields[0].chars),
+                                                                        dir=(ex.deref(st, me) if isinstance(me, (Ref, BoxRef)) else me).fields[3])]
+                                if len(st.meta["got"]) > 2 * len(flat) + 2:
+                                    ob.total += 1
+                                    ob.failures.append(dict(kind="functional", cex=cex([]), desc="C08: the traversal yields more entries than exist (does not terminate?)", **meta))
+                                    return
+                            st2 = ex.start(fns["next"], [st.meta["iter"]])
+                            st2.pc, st2.meta = list(st.pc), dict(st.meta)
+                            st2.meta["i"] = i
+                            return [st2]
+
+                        def finish_path(st, meta, cex, flat=flat, filt=filt, sort=sort, cf_=cf_, dmin_v=dmin_v, dmax_v=dmax_v):
+                            got = st.meta["got"]
+                            # effective depth window: min_depth(m) then max_depth(M) clamps max up to min
+                            UMAX = (1 << 64) - 1
+                            def conc(v):
+                                for k in list(range(dmax + 1)) + [UMAX]:
+                                    if ex.decide(st, bv_bin("Eq", v, BV(64, False, k))):
+                                        return k
+                                raise Unsupported("depth outside the bound")
+                            m, Mx = conc(dmin_v), conc(dmax_v)
+                            emin, emax = m, max(Mx, m)
+                            exp = c08_expected(ex, st, flat, filt, sort, cf_, emin, emax)
+                            desc_opts = "filter=%s sort=%s contents_first=%s" % (filt, sort, cf_)
+                            # set equality, each exactly once
+                            used = [False] * len(got)
+                            missing, ok_once = [], True
+                            for n in exp:
+                                hit = [j for j, g in enumerate(got) if ex.decide(st, TP.path_eq_text(ex, st, g["path"], n["key"]))]
+                                if len(hit) != 1:
+                                    ok_once = False
+                                for j in hit:
+                                    used[j] = True
+                            ob.prove(ex, st, "C08: the traversal yields exactly the entries the options denote, each once (%s)" % desc_opts,
+                                     B(ok_once and all(used) and len(got) == len(exp)), cex) or ob.failures[-1].update(
+                                got=["".join(chr(c.v) if c.concrete else "?" for c in g["path"]) for g in got], **meta)
+                            if not (ok_once and all(used) and len(got) == len(exp)):
+                                return
+                            pos = lambda key: [j for j, g in enumerate(got) if ex.decide(st, TP.path_eq_text(ex, st, g["path"], key))][0]
+                            # parents before contents (after them with contents_first)
+                            okp = True
+                            for n in exp:
+                                par = [p for p in exp if n["parent"] is p["key"]]
+                                if par:
+                                    okp = okp and ((pos(par[0]["key"]) > pos(n["key"])) if cf_ else (pos(par[0]["key"]) < pos(n["key"])))
+                            ob.prove(ex, st, "C08: parents come before their contents (after them with contents_first) (%s)" % desc_opts, B(okp), cex) or \
+                                ob.failures[-1].update(**meta)
+                            if sort != "none":
+                                same = all(ex.decide(st, TP.path_eq_text(ex, st, g["path"], n["key"])) for g, n in zip(got, exp))
+                                ob.prove(ex, st, "C08: sorted traversal yields siblings in name order%s, depth first (%s)" % (
+                                    " grouped by kind" if sort != "name" else "", desc_opts), B(same), cex) or ob.failures[-1].update(**meta)
+                            if len(ob.samples) < 4:
+                                ob.samples.append(dict(options=desc_opts, min_depth=m, max_depth=Mx, yielded=len(got), names=cex([])))
+
+                        st0 = State()
+                        st0.done = True
+                        st0.meta = dict(i=-1, memfs=memfs, inner=inner)
+                        st0.pc = list(cons)
+                        ex.explore(st0, on_path)
+    seen = set()
+    for f in ob.failures:
+        if f["kind"] == "bound" or not f.get("cex"):
+            unit["status"], unit["why"] = "inconclusive", f["desc"]
+            continue
+        key = (re.sub(r" \(filter.*", "", f["desc"]), tuple(sorted(f["opts"].items())))
+        if key in seen or len(seen) >= 6:
+            continue
+        seen.add(key)
+        src = c08_replay_src(f, shapes)
+        r = native_test(src, ctx.logdir, "%s_%d" % (tag, len(seen)))
+        reproduced = r["ran"] and r["failed"] > 0
+        rec = dict(kind=f["kind"], desc='"%s" opts=%r cex=%r' % (f["desc"], f["opts"], f["cex"]), where="EntriesIter", reproduced=reproduced, replay_outcome=r["out"][-600:])
+        if reproduced:
+            rec["replay"] = save_replay(prop, tag, src, f["desc"], dict(failed=r["failed"]))
+        unit["failures"].append(rec)
+        unit["status"] = "violation"
+    return finish(unit, ex, solver, ob, t0, dict(models_used="Memfs and the traversal executed from MIR; HashSet iteration order: the listing order and its reverse; reference traversal in Python"))
+
+
+def c08_replay_src(f, shapes):
+    o, c = f["opts"], f["cex"]
+    shape = shapes[o["shape"]][0]
+    names = {int(k[4:]): v for k, v in c.items() if k.startswith("name")}
+    mk = []
+
+    def add(node, parent):
+        idx, kind, kids = node
+        p = "/" if idx is None else (parent.rstrip("/") + "/" + names[idx])
+        if idx is not None:
+            mk.append('    v.%s(%s).unwrap();' % ("mkdir_p" if kind == "d" else "mkfile", rs_str(p)))
+        for k in (kids if not o["listing_order"] else kids[::-1]):
+            add(k, p)
+    add(shape, "")
+    chain = ".min_depth(%s).max_depth(%s)" % tuple("usize::MAX" if c.get(k, 0) > 1000 else str(c.get(k, 0)) for k in ("min_depth", "max_depth"))
+    if o["filter"] != "none":
+        chain += ".%s()" % o["filter"]
+    if o["sort"] != "none":
+        chain += ".%s()" % ("sort_by_name" if o["sort"] == "name" else o["sort"])
+    if o["contents_first"]:
+        chain += ".contents_first()"
+    return '''use rivia::prelude::*;
+use std::collections::BTreeMap;
+
+// reference traversal over a plain tree (std only)
+struct Node { path: String, dir: bool, kids: Vec<Node> }
+fn build(v: &Memfs, p: &str) -> Node {
+    let dir = v.is_dir(p);
+    let mut kids = vec![];
+    if dir { for k in v.paths(p).unwrap() { kids.push(build(v, k.to_str().unwrap())); } }
+    Node { path: p.to_string(), dir, kids }
+}
+fn visit(n: &Node, depth: usize, emin: usize, emax: usize, filt: &str, sort: &str, cf: bool, out: &mut Vec<String>) {
+    let passes = depth >= emin && (filt == "none" || (filt == "dirs") == n.dir);
+    if passes && !(cf && n.dir) { out.push(n.path.clone()); }
+    if n.dir && depth < emax {
+        let mut ks: Vec<&Node> = n.kids.iter().collect();
+        ks.sort_by(|a, b| a.path.cmp(&b.path));
+        if sort == "dirs_first" { ks.sort_by_key(|k| !k.dir); }
+        if sort == "files_first" { ks.sort_by_key(|k| k.dir); }
+        for k in ks { visit(k, depth + 1, emin, emax, filt, sort, cf, out); }
+    }
+    if passes && cf && n.dir { out.push(n.path.clone()); }
+}
+
+#[test]
+fn replay_entries() {
+    // %s
+    let v = Memfs::new();
+%s
+    let (m, mx): (usize, usize) = (%s, %s);
+    let got: Vec<String> = v.entries("/").unwrap()%s.into_iter().map(|e| e.unwrap().path().to_str().unwrap().to_string()).collect();
+    let mut exp = vec![];
+    visit(&build(&v, "/"), 0, m, std::cmp::max(m, mx), %s, %s, %s, &mut exp);
+    let (mut a, mut b) = (got.clone(), exp.clone());
+    a.sort(); b.sort();
+    assert_eq!(a, b, "C08: yielded set differs from what the options denote (got {:?})", got);
+    let pos: BTreeMap<&String, usize> = got.iter().enumerate().map(|(i, p)| (p, i)).collect();
+    for p in &got {
+        let par = std::path::Path::new(p).parent().map(|x| x.to_str().unwrap().to_string());
+        if let Some(par) = par { if let Some(j) = pos.get(&par) { assert!(if %s { *j > pos[p] } else { *j < pos[p] }, "C08: parent/content order of {} in {:?}", p, got); } }
+    }
+    if %s != "none" { assert_eq!(got, exp, "C08: sorted traversal order"); }
+}
+''' % (f["desc"], "\n".join(mk), "usize::MAX" if c.get("min_depth", 0) > 1000 else c.get("min_depth", 0), "usize::MAX" if c.get("max_depth", 0) > 1000 else c.get("max_depth", 0),
+       chain, rs_str(o["filter"]), rs_str(o["sort"]), "true" if o["contents_first"] else "false", "true" if o["contents_first"] else "false", rs_str(o["sort"]))
+
+
+def _mk_c08(name, tier, shapes, sorts, **kw):
+    @job(name, ["C08", "C12"], tier, functions=C08_FUNCS,
+         bounds="Memfs only; tree shapes %s with every name one symbolic ASCII char in '0'..='z' (siblings distinct), directory listings in the given and in the reversed order; "
+                "options: filter in %s x sort in %s x contents_first in {false,true}, min_depth and max_depth symbolic in 0..=%d or usize::MAX; no links, follow=false" % (
+                    "{/{d{f,d},f,d}}" if shapes[0][0] is C08_SHAPE else "{/{d{d{f}},f}}", list(kw.get("filters", ("none", "dirs", "files"))), list(sorts), kw.get("dmax", 3)))
+    def f(ctx, prop):
+        return run_entries(ctx, prop, name, shapes, sorts, **kw)
+    return f
+
+
+
+for _s in ("none", "name", "dirs_first", "files_first"):
+    for _f in ("none", "dirs", "files"):
+        _mk_c08("c08_entries_%s_%s" % (_s, _f), "quick", [(C08_SHAPE, 5)], (_s,), filters=(_f,), dmax=2)
+        _mk_c08("c08_entries_deep_%s_%s" % (_s, _f), "thorough", [(C08_SHAPE_DEEP, 4)], (_s,), filters=(_f,), dmax=4)
